@@ -26,4 +26,4 @@ Definition read (n : nat) (b : bytes) : res (bytes * bytes) :=
 Definition rd (n : nat) (b : bytes) : res (N * bytes) :=
   let* (x, r) := read n b in Ok (be x, r).
 
-Definition lenN (b : bytes) : N := N.of_nat (length b).
+Definition lenN {A} (b : list A) : N := N.of_nat (length b).
